@@ -80,6 +80,14 @@ def cases(ctx):
     for i, r in enumerate(runs):
         if i % ctx.nshards == ctx.shard:
             yield dict(r, i=i, kind="run")
+    # runs in a child process whose working directory is a scratch folder: the default output directory (save_ckpt_path=None -> "."), and the
+    # low-memory fallback of the in-memory framework to chunk files under the working directory
+    cwd_runs = [{"model": "centroid", "form": "plain", "mode": "default-dir"}, {"model": "single_instance", "form": "structured", "mode": "low-memory"},
+                {"model": "bottomup", "form": "plain", "mode": "low-memory"}, {"model": "centered_instance", "form": "structured", "mode": "default-dir"}]
+    for j, r in enumerate(cwd_runs if ctx.tier == "thorough" else cwd_runs[:2]):
+        if j % ctx.nshards == ctx.shard:
+            yield {"i": 2000 + j, "kind": "cwd", "model": r["model"], "fw": "torch_dataset", "use_wandb": False, "save_ckpt": True, "form": r["form"], "delete_chunks": True, "omit": None,
+                   "mode": r["mode"]}
     if ctx.tier == "thorough":
         kills = [r for r in all_runs() if r["form"] == "plain" and r["omit"] is None and r["delete_chunks"] and not r.get("ckpt") and r["model"] in ("centroid", "bottomup")]
         for j, r in enumerate(kills):
@@ -115,7 +123,7 @@ def make_config(run, outdir):
 
     lp = _S.get("labels_override") or labels_file(single=run["model"] == "single_instance")
     model = run["model"]
-    chunks = os.path.join(outdir, "chunks")
+    chunks = os.path.join(outdir, "chunks") if outdir else None
     head = {"single_instance": {"confmaps": {"part_names": None, "sigma": 1.5, "output_stride": 2}},
             "centroid": {"confmaps": {"anchor_part": 0, "sigma": 1.5, "output_stride": 2}},
             "centered_instance": {"confmaps": {"part_names": None, "anchor_part": 0, "sigma": 1.5, "output_stride": 2}},
@@ -150,7 +158,7 @@ def make_config(run, outdir):
     }
     if run["omit"]:
         del cfg["trainer_config"][run["omit"]]
-    path = os.path.join(os.path.dirname(outdir), os.path.basename(outdir) + "_supplied.yaml")
+    path = os.path.join(os.path.dirname(outdir), os.path.basename(outdir) + "_supplied.yaml") if outdir else os.path.join(os.getcwd(), "..", "supplied.yaml")
     OmegaConf.save(OmegaConf.create(cfg), path)
     return OmegaConf.load(path)  # genuinely YAML-loaded
 
@@ -181,10 +189,11 @@ def execute(run, outdir, kill_at=None, on_boundary=None):
     """Construct the trainer and train under the file-system monitor. Returns a result dict."""
     from vf import fsaudit
 
-    os.makedirs(outdir, exist_ok=True)
+    if outdir:
+        os.makedirs(outdir, exist_ok=True)
     cfg = make_config(run, outdir)
     res = {"exc": None, "boundaries": 0, "trainer": None, "cfg": cfg}
-    roots = [outdir]
+    roots = [outdir or os.getcwd()]
     with fsaudit.Watch(roots, callback=on_boundary, kill_at=kill_at) as w:
         try:
             from sleap_nn.training.model_trainer import ModelTrainer
@@ -233,6 +242,8 @@ def check(ctx, case):
     sig = tuple(run.values())
     if case["kind"] == "kill":
         return check_kill(ctx, case, run, outdir, small)
+    if case["kind"] == "cwd":
+        return check_cwd(ctx, case, run, small)
     seen = {}
 
     def on_boundary(event, path, k):
@@ -347,6 +358,49 @@ def check_kill(ctx, case, run, outdir, small):
     ctx.tick(("kill",) + sig if n_kills >= 5 else None, sample={"kill_run": run, "kill_points": n_kills} if ctx.evaluations < 6 else None)
 
 
+def check_cwd(ctx, case, run, small):
+    """Training in a child process whose working directory is a fresh scratch folder; the parent inspects that folder afterwards."""
+    from vf import fsaudit, synth
+
+    mode = case["mode"]
+    base = os.path.join(synth.workdir("C19"), f"cwd{case['i']}")
+    shutil.rmtree(base, ignore_errors=True)
+    cwd = os.path.join(base, "work")
+    os.makedirs(cwd)
+    spec = os.path.join(base, "spec.json")
+    lp = labels_file(single=run["model"] == "single_instance")
+    json.dump({"run": run, "outdir": None, "labels": lp, "kill_at": None, "cwd": cwd, "low_memory": mode == "low-memory"}, open(spec, "w"))
+    sig = (run["model"], run["form"], mode)
+    try:
+        p = subprocess.run([sys.executable, "-m", "vf.props.c19", spec], capture_output=True, text=True, timeout=600)
+    except subprocess.TimeoutExpired:
+        ctx.note_inconclusive(f"cwd run {sig} hit the watchdog")
+        shutil.rmtree(base, ignore_errors=True)
+        return
+    ctx.count("cwd_runs")
+    try:
+        if p.returncode != 0:
+            tail = (p.stderr or p.stdout).strip().splitlines()[-1:] or [""]
+            ctx.violation(f"training-raises-in-default-dir:{mode}", f"run {sig} (working directory = output directory): child exited {p.returncode}: {tail[0][:200]}", small)
+            return
+        files = [os.path.relpath(os.path.join(dp, f), cwd) for dp, _, fn in os.walk(cwd) for f in fn]
+        hits, n = fsaudit.scan_tree([cwd], KEY.encode())
+        ctx.count("files_scanned_at_exit", n)
+        for h in hits:
+            ctx.violation(key_location(h), f"run {sig}: the API key is on disk in '{h}'", small)
+        for want in ("initial_config.yaml", "training_config.yaml", "best.ckpt"):
+            if want not in files:
+                ctx.violation("artifact-missing-in-default-dir", f"run {sig}: save_ckpt_path=None (output directory '.'): {want} is not in the output directory; files: {sorted(files)[:12]}", small)
+        left = [f for f in files if f.endswith(".npz")]
+        if left:
+            ctx.violation("chunks-not-deleted", f"run {sig}: delete_chunks_after_training is set but {len(left)} chunk files remain under the working directory ({left[:3]})", small)
+        if mode == "low-memory" and "FALLBACK-TAKEN" not in p.stdout:
+            ctx.note_inconclusive(f"cwd run {sig}: the low-memory fallback to chunk files was not taken")
+    finally:
+        shutil.rmtree(base, ignore_errors=True)
+    ctx.tick(("cwd",) + sig)
+
+
 def finalize(ctx):
     ctx.require("runs", 2) if ctx.tier == "quick" else None
     ctx.require("write_boundaries", 10) if ctx.counters.get("runs") else None
@@ -358,7 +412,28 @@ def _child_main(spec_path):
     compat.install()
     spec = json.load(open(spec_path))
     _S["labels_override"] = spec["labels"]
+    if spec.get("cwd"):
+        os.chdir(spec["cwd"])
+    if spec.get("low_memory"):  # the host has no memory to spare when the data loaders are created: the in-memory framework falls back to chunk files
+        import types
+
+        from sleap_nn.training import model_trainer as mt
+
+        real = mt.psutil.virtual_memory
+
+        def no_memory():
+            vm = real()
+            return types.SimpleNamespace(**{k: getattr(vm, k) for k in vm._fields if k != "available"}, available=0)
+
+        mt.psutil = types.SimpleNamespace(**{k: getattr(mt.psutil, k) for k in dir(mt.psutil) if not k.startswith("__")})
+        mt.psutil.virtual_memory = no_memory
     res = execute(spec["run"], spec["outdir"], kill_at=spec["kill_at"])
+    if spec.get("low_memory") and res["trainer"] is not None and "np_chunks" in str(getattr(res["trainer"], "data_pipeline_fw", "")):
+        print("FALLBACK-TAKEN")
+    if res["exc"] is not None:
+        import traceback
+
+        traceback.print_exception(res["exc"])
     sys.exit(0 if res["exc"] is None else 3)
 
 
